@@ -106,6 +106,18 @@ type c36Case struct {
 	// closeListenerClients go to it: connections that arrive through a listener that is still open while another one is
 	// being closed (Server.Close has begun)
 	OtherListener bool `json:"other_listener,omitempty"`
+	// FailClose: the broker's listener is a listeners.Net around a net.Listener of the embedding program whose Close()
+	// closes the socket and then reports an error (what a socket the owner has already shut, or a wrapper with its own
+	// bookkeeping, does): the listener's clients must be disconnected all the same (seeded change C36-e)
+	FailClose bool `json:"fail_close,omitempty"`
+}
+
+// failCloseListener: see c36Case.FailClose
+type failCloseListener struct{ net.Listener }
+
+func (f *failCloseListener) Close() error {
+	_ = f.Listener.Close()
+	return errors.New("listener close failed")
 }
 
 // ---- handler tracker (verif schedule hook) ----------------------------------------------------------------
@@ -1006,7 +1018,19 @@ func c36Check(c c36Case, r *evid.Rec) (discs []evid.Disc) {
 	if v := os.Getenv("VERIF_C36_LISTEN"); v != "" { // e.g. 127.0.0.1:0, to exercise the shared-address situation on purpose
 		laddr = v
 	}
-	l := listeners.NewTCP(listeners.Config{ID: lid, Address: laddr})
+	var l listeners.Listener = listeners.NewTCP(listeners.Config{ID: lid, Address: laddr})
+	if c.FailClose {
+		ln, err := net.Listen("tcp", laddr)
+		if err != nil {
+			ln, err = net.Listen("tcp", "127.0.0.1:0")
+		}
+		if err != nil {
+			r.Inconclusive("cannot listen on " + laddr + " nor on 127.0.0.1:0: " + err.Error())
+			r.NotAsserted()
+			return nil
+		}
+		l = listeners.NewNet(lid, &failCloseListener{ln})
+	}
 	if err := run.srv.AddListener(l); err != nil {
 		l = listeners.NewTCP(listeners.Config{ID: lid, Address: "127.0.0.1:0"})
 		if err := run.srv.AddListener(l); err != nil {
@@ -1659,6 +1683,7 @@ func c36Gen(r *evid.Rec) func(t *rapid.T) c36Case {
 			if knownHang {
 				c.ImpatientMs = rapid.IntRange(40, 90).Draw(t, "impatient_ms")
 			}
+			c.FailClose = rapid.IntRange(0, 4).Draw(t, "fail_close") == 0
 		case "idle-preconnect":
 			for i := 0; i < n; i++ {
 				c.Clients = append(c.Clients, genClient(t, []string{"est", "sub", "dial", "half"}, 3000))
@@ -1724,7 +1749,7 @@ func c36Witnesses() map[string]c36Case {
 }
 
 func TestC36(t *testing.T) {
-	r := evid.New("C36", "one real broker per case (mqtt.New, allow-all auth, listeners.TCP on a loopback address of its own, Serve) with 4-40 loopback TCP clients driven to generated stages "+
+	r := evid.New("C36", "one real broker per case (mqtt.New, allow-all auth, listeners.TCP on a loopback address of its own - in a fifth of the free-running cases and one fixed case a listeners.Net around a caller-supplied net.Listener whose Close() reports an error -, Serve) with 4-40 loopback TCP clients driven to generated stages "+
 		"(dialled only, CONNECT half sent, established v3.1.1/v5, subscribed, PUBLISH half sent, publishing back to back, already gone) and Server.Close() called after a generated number of them "+
 		"reached their stage, so the rest are dialling / connecting while Close() runs; directed classes hold a handler at the verif points attach.start (before ClientsWg.Add) or "+
 		"attach.afterLimitCheck (before Clients.Add) while Close() runs, dial from inside closeListenerClients (the listener being closed, or a second listener of the same broker that is still open), or write the client registry (Clients.Add/Delete) at a high rate while Close() reads it. Oracle once Close() has returned: every client socket reads EOF/reset within 2 s "+
@@ -1763,6 +1788,15 @@ func TestC36(t *testing.T) {
 			if len(ds) > 0 {
 				break
 			}
+		}
+	}
+	{ // fixed: settled clients on a wrapped listener whose Close() reports an error
+		fc := c36Case{Class: "free", CloseAfter: 3, FailClose: true, Clients: []c36Client{{Stage: "est", Ver: 5}, {Stage: "est", Ver: 4}, {Stage: "sub", Ver: 5}}}
+		r.Eval()
+		r.Label("fixed/listener-close-reports-an-error")
+		if un := r.Explain(c36Check(fc, r)); len(un) > 0 {
+			r.Fail(fc, un)
+			t.Errorf("C36 fixed case: [%s] %s", un[0].Sig, un[0].Msg)
 		}
 	}
 	if t.Failed() { // a witness produced something that is not listed: that is the result of this run
